@@ -266,6 +266,16 @@ def build(cfg, ctx):
     b.kept = []          # (reference to the array objfun was handed, copy taken at that moment) for the "keeps_x" form
     if forms & {"ret_list", "ret_samebuf", "ret_noncontig", "mutates_x", "keeps_x"}:
         f = FormedFun(f, forms, b.kept)
+    if cfg.get("_ret_dtype"):
+        # residual functions that do not return float64: a single-precision simulator, integer counts, a list of Python ints
+        # (not value-preserving - for checks that only need *a* result, like the serialisation round trip)
+        kind_, f1_ = cfg["_ret_dtype"], f
+        if kind_ == "float32":
+            f = lambda x, *a: np.asarray(f1_(x, *a)).astype(np.float32)
+        elif kind_ == "int":
+            f = lambda x, *a: np.rint(4.0 * np.asarray(f1_(x, *a))).astype(np.int64)
+        else:
+            f = lambda x, *a: [int(v) for v in np.rint(4.0 * np.asarray(f1_(x, *a)))]
     if "extra_args" in forms:
         # the residual function, h and the prox each REQUIRE their extra arguments (argsf / argsh / argsprox), exactly as given
         f0_ = f
